@@ -968,6 +968,10 @@ func (n *node) Kill(pid gen.PID) error {
 	case int32(gen.ProcessStateTerminated):
 		atomic.StoreInt32(&p.state, int32(gen.ProcessStateTerminated))
 		return nil
+	case int32(gen.ProcessStateZombee):
+		// already killed. it will be terminated by its goroutine
+		// or by the caller that made it a zombee
+		return nil
 	}
 
 	old := atomic.SwapInt32(&p.state, int32(gen.ProcessStateTerminated))
